@@ -316,3 +316,21 @@ Proof.
     + exact Hd'.
     + rewrite Ea', Ea1. apply cluster_addr_nonneg; [exact G|]. rewrite Forall_forall in Hin. apply Hin. exact Hc0.
 Qed.
+
+(** * the fixed root region (FAT12 / FAT16): a rewrite is ONE device write of exactly the region's size at the region's address —
+    or it is refused because the serialised entries (32 bytes per SLOT, long-name slots included) do not fit; nothing is ever
+    written behind the region *)
+Theorem root_rewrite_exact s loc es s' : is_root_fixed s loc = true -> write_dir s loc es = Ok s' ->
+  let sz := root_dir_sectors (s_p s) * bps s in
+  lenZ (ser_dir es) <= sz /\
+  exists data, s_log s' = (root_addr s, data) :: s_log s /\ lenZ data = sz /\ firstn (length (ser_dir es)) data = ser_dir es.
+Proof.
+  intros Hr H sz. unfold write_dir in H. destruct (s_ro s); [discriminate|]. cbv zeta in H. rewrite Hr in H. fold sz in H.
+  destruct (sz <? lenZ (ser_dir es)) eqn:E; [discriminate|]. apply Z.ltb_ge in E. split; [exact E|].
+  apply write_at_ok in H. destruct H as [_ ->]. eexists. split; [reflexivity|]. split.
+  - unfold lenZ in *. rewrite app_length. unfold zeros. rewrite repeat_length. lia.
+  - rewrite firstn_app, Nat.sub_diag, firstn_O, app_nil_r. apply firstn_all.
+Qed.
+Theorem root_rewrite_refused s loc es : is_root_fixed s loc = true -> s_ro s = false ->
+  root_dir_sectors (s_p s) * bps s < lenZ (ser_dir es) -> write_dir s loc es = Err ENOSPC.
+Proof. intros Hr Hro H. unfold write_dir. rewrite Hro, Hr. cbv zeta. apply Z.ltb_lt in H. rewrite H. reflexivity. Qed.
